@@ -29,6 +29,19 @@ type bTreeContainers struct {
 func newBTreeContainers() *bTreeContainers {
 	return &bTreeContainers{
 		tree: treeNew(),
+		// start with a definitely-invalid key (see Reset): the zero value
+		// would claim "key 0 was looked up and has no container".
+		lastKey: ^uint64(0),
+	}
+}
+
+// invalidateLast drops the last* cache if it refers to key. It must be
+// called whenever the tree entry for key may have been replaced or deleted
+// without going through Put.
+func (btc *bTreeContainers) invalidateLast(key uint64) {
+	if key == btc.lastKey {
+		btc.lastKey = ^uint64(0)
+		btc.lastContainer = nil
 	}
 }
 
@@ -95,6 +108,7 @@ type updater struct {
 func (btc *bTreeContainers) PutContainerValues(key uint64, typ byte, n int, mapped bool) {
 	a := updater{key, int32(n), typ, mapped}
 	btc.tree.Put(key, a.update)
+	btc.invalidateLast(key)
 }
 
 func (btc *bTreeContainers) Remove(key uint64) {
@@ -219,6 +233,7 @@ func (btc *bTreeContainers) Repair() {
 // replace the given container.
 func (btc *bTreeContainers) Update(key uint64, fn func(*Container, bool) (*Container, bool)) {
 	btc.tree.Put(key, fn)
+	btc.invalidateLast(key)
 }
 
 // UpdateEvery calls fn (existing-container, existed), and expects
@@ -229,6 +244,9 @@ func (btc *bTreeContainers) UpdateEvery(fn func(uint64, *Container, bool) (*Cont
 	// currently not handling the error from this, but in practice it has
 	// to be io.EOF.
 	_ = e.Every(fn)
+	// any container may have been replaced or deleted.
+	btc.lastKey = ^uint64(0)
+	btc.lastContainer = nil
 }
 
 type btcIterator struct {
